@@ -29,7 +29,7 @@ use rustc_middle::mir::{
     self, AggregateKind, AssertKind, BasicBlock, Body, BorrowKind, CastKind, Const as MirConst,
     ConstValue, Operand, Place, ProjectionElem, Rvalue, StatementKind, TerminatorKind, UnwindAction,
 };
-use rustc_middle::ty::print::{with_crate_prefix, with_no_trimmed_paths, with_resolve_crate_name};
+use rustc_middle::ty::print::{with_crate_prefix, with_no_trimmed_paths, with_no_visible_paths, with_resolve_crate_name};
 use rustc_middle::ty::{self, Instance, Ty, TyCtxt, TypeVisitableExt, TypingEnv};
 use rustc_span::Span;
 
@@ -90,11 +90,11 @@ struct Cx<'tcx> {
 
 impl<'tcx> Cx<'tcx> {
     fn path(&self, did: DefId) -> String {
-        with_resolve_crate_name!(with_crate_prefix!(with_no_trimmed_paths!(self.tcx.def_path_str(did))))
+        with_no_visible_paths!(with_resolve_crate_name!(with_crate_prefix!(with_no_trimmed_paths!(self.tcx.def_path_str(did)))))
     }
 
     fn tystr(&self, t: Ty<'tcx>) -> String {
-        with_resolve_crate_name!(with_crate_prefix!(with_no_trimmed_paths!(format!("{}", t))))
+        with_no_visible_paths!(with_resolve_crate_name!(with_crate_prefix!(with_no_trimmed_paths!(format!("{}", t)))))
     }
 
     fn intern_file(&mut self, f: String) -> usize {
@@ -234,7 +234,7 @@ fn fn_const<'tcx>(cx: &Cx<'tcx>, owner: DefId, did: DefId, args: ty::GenericArgs
     let _ = write!(
         o,
         ",\"full\":{}",
-        js(&with_resolve_crate_name!(with_crate_prefix!(with_no_trimmed_paths!(tcx.def_path_str_with_args(did, args)))))
+        js(&with_no_visible_paths!(with_resolve_crate_name!(with_crate_prefix!(with_no_trimmed_paths!(tcx.def_path_str_with_args(did, args))))))
     );
     // signature safety
     if matches!(tcx.def_kind(did), DefKind::Fn | DefKind::AssocFn) {
@@ -721,7 +721,7 @@ fn fn_entry<'tcx>(cx: &mut Cx<'tcx>, ldid: LocalDefId) -> String {
                 if let Some(tr) = tcx.impl_opt_trait_ref(parent) {
                     let tr = tr.instantiate_identity().skip_norm_wip();
                     let _ = write!(o, ",\"impl_trait\":{}", js(&cx.path(tr.def_id)));
-                    let _ = write!(o, ",\"impl_trait_full\":{}", js(&with_resolve_crate_name!(with_crate_prefix!(with_no_trimmed_paths!(format!("{}", tr))))));
+                    let _ = write!(o, ",\"impl_trait_full\":{}", js(&with_no_visible_paths!(with_resolve_crate_name!(with_crate_prefix!(with_no_trimmed_paths!(format!("{}", tr)))))));
                 }
             }
             DefKind::Trait => {
@@ -873,7 +873,7 @@ fn dump<'tcx>(tcx: TyCtxt<'tcx>) {
                 if let Some(tr) = tcx.impl_opt_trait_ref(did) {
                     let tr = tr.instantiate_identity().skip_norm_wip();
                     let _ = write!(o, ",\"trait\":{}", js(&cx.path(tr.def_id)));
-                    let _ = write!(o, ",\"trait_full\":{}", js(&with_resolve_crate_name!(with_crate_prefix!(with_no_trimmed_paths!(format!("{}", tr))))));
+                    let _ = write!(o, ",\"trait_full\":{}", js(&with_no_visible_paths!(with_resolve_crate_name!(with_crate_prefix!(with_no_trimmed_paths!(format!("{}", tr)))))));
                 }
                 let mut items = Vec::new();
                 for ai in tcx.associated_items(did).in_definition_order() {
